@@ -40,7 +40,10 @@ TRUSTED_BASE = [
 ]
 ASSUMPTIONS = [
     "the hosts file decodes in the locale encoding (UTF-8 here) and its trailing white space / all-white-space test involves ASCII white space only; otherwise: UnicodeDecodeError before anything is written, or Unicode white space stripped (observed, documented in the evidence notes, outside the model)",
-    "os.rename succeeds (the non-atomic shutil.move fallback for a 'locked' file is not covered)",
+    "os.rename succeeds in the model and the theorems; the real code is ALSO run (section G, implementation-only) with a rename that is refused "
+    "(EBUSY: the hosts file is a bind mount, as in a container; EPERM/EACCES: 'locked') — the documented non-atomic shutil.move fallback "
+    "(firewall.py:61-67) must still install exactly (old lines minus own marked lines) + own marked lines; atomicity is NOT claimed there "
+    "(the code says so itself) — and with a hosts file that cannot be read (EACCES, EIO, EISDIR: firewall.py:33-37): nothing may be touched",
     "host names and addresses handed to rewrite_etc_hosts contain no newline and no '#' (supplied by C19); c14_serial_histories states this hypothesis",
     "no third party modifies the hosts directory while a call runs (other than the sshuttle instances in the schedule)",
     "histories and interleavings call rewrite_etc_hosts/restore_etc_hosts the way firewall.main does (hostmap[name]=ip; rewrite / finally: restore); firewall.main itself is not run here",
@@ -1137,6 +1140,81 @@ def run_outside_model(ctx, fw):
 
 
 # ----------------------------------------------------------------------------
+# G. the file system refuses: the hosts file cannot be read (firewall.py:33-37), the rename is refused (61-67)
+
+def run_refused(ctx, fw, n):
+    import io
+    import random
+    rng = random.Random("C14-refused-%d" % ctx.seed)        # own stream: the other sections keep their cases
+    real_rename = os.rename
+    for i in range(n):
+        port = rng.choice(PORTS)
+        content = gen_content(rng, port)
+        while content is None:
+            content = gen_content(rng, port)
+        hm = gen_map(rng, rng.choice([0, 1, 2, 5]))
+        restore = rng.random() < 0.25 and bool(hm)
+        bak = rng.choice([None, b"bak\n"])
+        uid, gid, mode = rng.choice([(0, 0, 0o644), (1000, 1000, 0o600), (0, 4, 0o664)])
+        kind = "unreadable" if i % 3 == 0 else "rename"
+        err = rng.choice([errno.EACCES, errno.EIO, errno.EISDIR, errno.EPERM]) if kind == "unreadable" else \
+            rng.choice([errno.EBUSY, errno.EBUSY, errno.EPERM, errno.EACCES, errno.EXDEV])
+        w = World(content, uid, gid, mode, bak, rng.random() < 0.8)
+        old_err = sys.stderr
+        try:
+            sys.stderr = io.StringIO()
+            with Patched(fw, w):
+                try:
+                    if kind == "unreadable":
+                        def failing_open(path, mode="r", *a, **k):
+                            if path == w.hosts and mode == "r":
+                                raise OSError(err, os.strerror(err), path)
+                            return _fw_open(path, mode, *a, **k)
+                        fw.open = failing_open
+                    else:
+                        def refusing(src, dst, *a, **k):
+                            if dst == w.hosts:
+                                raise OSError(err, os.strerror(err), src, None, dst)
+                            return real_rename(src, dst, *a, **k)
+                        os.rename = refusing
+                    status, ev = call_impl(fw, w, port, hm, restore)
+                finally:
+                    os.rename = real_rename
+            warned = "non-atomic" in sys.stderr.getvalue()
+        finally:
+            sys.stderr = old_err
+        after = w.hosts_bytes()
+        snap = w.snapshot()
+        w.close()
+        ctx.count("refused_%s_errno_%s" % (kind, errno.errorcode[err]))
+        ctx.case(("refused", kind, err, content, port, tuple(sorted(hm.items())), restore), nontrivial=True,
+                 sample={"kind": "refused-" + kind, "errno": errno.errorcode[err], "status": status,
+                         "new": (after or b"")[:160].decode("utf-8", "replace")} if i < 2 else None)
+        rp = {"kind": "refused", "what": kind, "errno": err, "content_hex": hx(content), "port": port, "map": dict(hm),
+              "restore": restore, "got_hex": None if after is None else hx(after)}
+        if kind == "unreadable":
+            untouched = (after == content and not any(k.startswith("tmp") for k in snap)
+                         and snap.get("hosts", (None,) * 5)[1:4] == (uid, gid, mode) and ("bak" in snap) == (bak is not None))
+            if not untouched:
+                ctx.violation("a hosts file that could not be read was replaced or a temporary / backup was left beside it", rp)
+            elif not status.startswith("crash:"):
+                ctx.disagree("rewrite_etc_hosts on an unreadable hosts file", errno.errorcode[err], status, "the error propagates (firewall.py:37)")
+        else:
+            want = spec_rewrite(content, port, {} if restore else hm)
+            if after != want:
+                ctx.violation("rename refused: the hosts file after the documented non-atomic fallback is not (old lines minus own marked "
+                              "lines) + own marked lines", dict(rp, want_hex=hx(want), status=status))
+            else:
+                left = sorted(k for k in snap if k.startswith("tmp"))
+                meta = snap["hosts"][1:4]
+                if status != "done" or left or meta != (uid, gid, mode) or not warned:
+                    ctx.disagree("rename refused: fallback status / left-over temporary / owner+mode / warning",
+                                 {"errno": errno.errorcode[err], "port": port},
+                                 {"status": status, "left": left, "owner_mode": meta, "warned": warned},
+                                 {"status": "done", "left": [], "owner_mode": (uid, gid, mode), "warned": True}, True)
+
+
+# ----------------------------------------------------------------------------
 
 def correspondence(ctx):
     fw = load()
@@ -1262,6 +1340,9 @@ def correspondence(ctx):
             ctx.notes.append("F8 no longer reproduces: c14_interleaved_refuted's witness does not fail on the real code (locking added?) — model must be updated")
             ctx.disagree("F8 witness", "F8_WITNESS", "no lost update on the real code", "model: lost update", True)
 
+        # ---- G: the file system refuses (unreadable hosts file; rename refused -> non-atomic fallback)
+        run_refused(ctx, fw, 150 if quick else 3000)
+
         # ---- E: outside the model
         run_outside_model(ctx, fw)
         ctx.notes.append("restore_etc_hosts does nothing when this instance never added a host (firewall.py:72): marked lines left behind "
@@ -1290,6 +1371,38 @@ def replay(ctx, rp):
             want = b(r["want_hex"])
             print("got", got, "want", want)
             return got != want
+        if r.get("kind") == "refused":
+            import io
+            content = b(r["content_hex"])
+            w = World(content, 0, 0, 0o644, None, True)
+            real_rename = os.rename
+            old_err, sys.stderr = sys.stderr, io.StringIO()
+            try:
+                with Patched(fw, w):
+                    try:
+                        if r["what"] == "unreadable":
+                            def failing_open(path, mode="r", *a, **k):
+                                if path == w.hosts and mode == "r":
+                                    raise OSError(r["errno"], os.strerror(r["errno"]), path)
+                                return _fw_open(path, mode, *a, **k)
+                            fw.open = failing_open
+                        else:
+                            def refusing(src, dst, *a, **k):
+                                if dst == w.hosts:
+                                    raise OSError(r["errno"], os.strerror(r["errno"]))
+                                return real_rename(src, dst, *a, **k)
+                            os.rename = refusing
+                        status, _ = call_impl(fw, w, r["port"], r["map"], r.get("restore", False))
+                    finally:
+                        os.rename = real_rename
+            finally:
+                sys.stderr = old_err
+            got = w.hosts_bytes()
+            left = [k for k in w.snapshot() if k.startswith("tmp")]
+            w.close()
+            want = content if r["what"] == "unreadable" else b(r["want_hex"])
+            print("status", status, "got", got, "want", want, "left", left)
+            return got != want or (r["what"] == "unreadable" and bool(left))
         if r.get("kind") == "sched":
             case = case_from_json(r["case"])
             bits = [int(x) for x in r.get("bits", "")]
